@@ -234,6 +234,12 @@ def run(tier, seed, replay=None):
                         rep.count("theorem-instances-checked:" + nm)
                         if not ok:
                             rep.broken.append("instance of " + nm + " false in the executable model for " + texts[i][0][:300])
+                if len(wv) >= 10 and wv[8] == "1":
+                    rep.count("theorem-instances-checked:C13_round_trip")
+                    if wv[9] != "1":
+                        rep.broken.append("instance of C13_round_trip false in the executable model for " + texts[i][0][:300])
+                elif len(wv) >= 10:
+                    rep.count("theorem-not-applicable:C13_round_trip (roundTripOK_rt fails)")
                 if shape:
                     rep.count("theorem-instances-checked:C13_canon_is_renaming_reserved")
                     if not is_ren_res:
@@ -259,6 +265,11 @@ def run(tier, seed, replay=None):
             rep.count("alpha:bad-response")
             continue
         wf, aok, form, textual, perm, same_hdr, aokh = (x == "1" for x in av[1:8])
+        if len(av) >= 10 and av[8] == "1":
+            # both presentations satisfy roundTripOK_rt and have the same canonical block: the computed renaming between them maps one to the other
+            rep.count("theorem-instances-checked:C13_same_canon_only_if_renaming")
+            if av[9] != "1":
+                rep.broken.append("instance of C13_same_canon_only_if_renaming false in the executable model: " + texts[i][0][:300])
         if not (textual and perm):
             rep.count("alpha:presentation-is-not-the-textual-renaming (lifetime order / reserved spellings)")
             continue
